@@ -130,10 +130,12 @@ class _UtilityRegistrations:
     def registerUtility(self, provided, name, component, info, factory):
         subscribed = self._is_utility_subscribed(provided, component)
 
+        # The registry first: it is what refuses bad arguments (a name
+        # that is not a string), and a refused call must not be listed.
+        self._utilities.register((), provided, name, component)
         self._utility_registrations[
             (provided, name)
         ] = component, info, factory
-        self._utilities.register((), provided, name, component)
 
         if not subscribed:
             self._utilities.subscribe((), provided, component)
@@ -316,9 +318,10 @@ class Components:
         required = _getAdapterRequired(factory, required)
         if name == '':
             name = _getName(factory)
+        # The registry first: a call it refuses must not be listed.
+        self.adapters.register(required, provided, name, factory)
         self._adapter_registrations[(required, provided, name)
                                     ] = factory, info
-        self.adapters.register(required, provided, name, factory)
 
         if event:
             notify(Registered(
